@@ -8,7 +8,7 @@ PROPERTY = "C08"
 RULE = ("enum: every triple (n+, n-, N) with N<=80 (quick) / N<=160 (thorough), each realised as an actual sequence "
         "(seed-chosen arrangement and spelling; every 7th triple additionally through a second arrangement). Oracle: exact "
         "rational evaluation of the stated thresholds (1/4, 35/100); never raises; result in 1..5; equal for both realisations. "
-        "Non-trivial: every triple (distinct by (n+, n-, N)); boundary triples (FCR in {1/4, 7/20} or |NCPR| = 7/20) are counted separately.")
+        "hyp: sequences up to 40 residues after a generated warm-up history of other API calls on the same object (pH getters at pH 0/7/14, kappa, profiles ...). Non-trivial: every triple (distinct by (n+, n-, N)); boundary triples (FCR in {1/4, 7/20} or |NCPR| = 7/20) are counted separately.")
 ASSUMPTIONS = ["thresholds as exact rationals 1/4 and 35/100, exactly as the statement gives them"]
 TECHNIQUE = "exhaustive enumeration of composition space (which the function factors through) against an exact-rational threshold oracle"
 LEVEL_TEXT = ("Exploration, complete in composition space up to N=80 (quick) / 160 (thorough): the function depends only on (n+, n-, N), "
@@ -42,5 +42,24 @@ def check(ctx, case):
         ctx.check(got == want, "threshold", "region %r for (n+,n-,N)=(%d,%d,%d), exact thresholds give %d%s" % (got, P, M, N, want, " [boundary]" if b else ""), case)
 
 
+def check_warm(ctx, case):
+    """The same oracle on an object that has already answered other queries (generated warm-up history)."""
+    seq = case["seq"]
+    pat = ref.pattern(seq)
+    P, M = sum(1 for c in pat if c > 0), sum(1 for c in pat if c < 0)
+    want = ref.region(P, M, len(seq))
+    ctx.count(case, nontrivial=bool(case.get("warm")), classes=["region:%d" % want, "warm:%d" % len(case.get("warm") or [])])
+    got = util.spw(seq, case).get_phasePlotRegion()
+    ctx.check(got == want, "threshold-after-history", "region %r for %s after the warm-up history %r, exact thresholds give %d" % (got, seq, case.get("warm"), want), case)
+
+
+def hyp_case():
+    from hypothesis import strategies as st
+    from .. import gens
+    return st.builds(lambda s, w: {"seq": s, "warm": w}, gens.sequences(max_len=40), gens.warmups())
+
+
 def parts(tier):
-    return [Part("enum-triples", "enum", check=check, cases=cases, exhaustive=True, shards={"quick": 16, "thorough": 16})]
+    return [Part("enum-triples", "enum", check=check, cases=cases, exhaustive=True, shards={"quick": 16, "thorough": 16}),
+            Part("hyp-after-history", "hyp", check=check_warm, strategy=lambda t: hyp_case(),
+                 examples={"quick": 1600, "thorough": 16000}, shards={"quick": 16, "thorough": 16})]
